@@ -1,13 +1,13 @@
 (* Entry points of the extracted runner: [dispatch] evaluates the model on a
    case, [judge] compares with what the implementation did. *)
-From WP Require Import Base.Prelude Run.Sx Run.RunCbor Run.RunDet Run.RunMice Run.RunSH Run.RunSxg Run.RunCC Run.RunBundle.
+From WP Require Import Base.Prelude Run.Sx Run.RunCbor Run.RunDet Run.RunMice Run.RunSH Run.RunSxg Run.RunCC Run.RunBundle Run.RunSig.
 Open Scope N_scope.
 
 Definition first_some {A} (l : list (option A)) : option A :=
   fold_right (fun o acc => match o with Some a => Some a | None => acc end) None l.
 
 Definition dispatch (op : bytes) (args : list sx) : sx :=
-  match first_some [dispatch_cbor op args; dispatch_det op args; dispatch_mice op args; dispatch_sh op args; dispatch_sxg op args; dispatch_cc op args; dispatch_bundle op args] with
+  match first_some [dispatch_cbor op args; dispatch_det op args; dispatch_mice op args; dispatch_sh op args; dispatch_sxg op args; dispatch_cc op args; dispatch_bundle op args; dispatch_sig op args] with
   | Some r => r
   | None => SL [sym "unknown_op"]
   end.
